@@ -194,6 +194,10 @@ def _binop(a, b, fn, force_real=False):
     return wrap(fn(ta, tb))
 
 
+def _is_inf(o) -> bool:
+    return isinstance(o, (float, _np.floating)) and o in (math.inf, -math.inf)
+
+
 def _nn(o) -> bool:
     if isinstance(o, SymNum):
         return o.nn
@@ -296,34 +300,47 @@ class SymNum(Sym):
         raise OutsideClaim("symbolic exponent")
 
     # comparisons ----------------------------------------------------------
+    # (a finite symbolic number against +-inf, which swcgeom uses as a mask value, is decided concretely)
     def __lt__(self, o):
         if not _num_ok(o):
             return NotImplemented
+        if _is_inf(o):
+            return o > 0
         return _binop(self, o, lambda x, y: x < y)
 
     def __le__(self, o):
         if not _num_ok(o):
             return NotImplemented
+        if _is_inf(o):
+            return o > 0
         return _binop(self, o, lambda x, y: x <= y)
 
     def __gt__(self, o):
         if not _num_ok(o):
             return NotImplemented
+        if _is_inf(o):
+            return o < 0
         return _binop(self, o, lambda x, y: x > y)
 
     def __ge__(self, o):
         if not _num_ok(o):
             return NotImplemented
+        if _is_inf(o):
+            return o < 0
         return _binop(self, o, lambda x, y: x >= y)
 
     def __eq__(self, o):
         if not _num_ok(o):
             return NotImplemented
+        if _is_inf(o):
+            return False
         return _binop(self, o, lambda x, y: x == y)
 
     def __ne__(self, o):
         if not _num_ok(o):
             return NotImplemented
+        if _is_inf(o):
+            return True
         return _binop(self, o, lambda x, y: x != y)
 
     # numpy protocol for object arrays -------------------------------------
@@ -482,6 +499,7 @@ class Options:
     oblig_timeout_ms: int = 60000
     max_decisions: int = 4000
     max_concretize: int = 64
+    path_timeout_s: int = 300  # wall-clock cap per path (a concrete non-terminating loop ends as inconclusive)
     lazy_nonlinear: bool = True
 
 
@@ -509,6 +527,7 @@ class SymCtx:
         self._pi = None
         self.assumptions: list[str] = []
         self.nonlinear = False
+        self._flat: list = []
 
     # -- solver helpers ----------------------------------------------------
     def _check(self, *assumptions, timeout_ms=None):
@@ -525,6 +544,76 @@ class SymCtx:
 
     def add(self, term):
         self.solver.add(term)
+        cj = _conjuncts(z3.simplify(term))
+        self._flat.extend(cj)
+        if not self.nonlinear and any(_is_nonlinear(a) for a in cj):
+            self.nonlinear = True
+
+    def _cone(self, terms):
+        """Assertions that share variables (transitively) with `terms`."""
+        vs = set()
+        for t in terms:
+            vs |= _vars(t)
+        chosen, rest = [], list(self._flat)
+        changed = True
+        while changed:
+            changed = False
+            keep = []
+            for a in rest:
+                av = _vars(a)
+                if av & vs:
+                    chosen.append(a)
+                    vs |= av
+                    changed = True
+                else:
+                    keep.append(a)
+            rest = keep
+        return chosen, vs
+
+    def _check_sliced(self, term, timeout_ms):
+        """Satisfiability of cone(term) & term with a fresh (non-incremental) solver, so that z3 can
+        use nlsat on the real-arithmetic slice.  Sound w.r.t. the whole path condition as long as
+        the rest of it (disjoint variables) is satisfiable, which the end-of-path check decides."""
+        chosen, _ = self._cone([term])
+        sv = z3.Solver()
+        sv.set("timeout", timeout_ms)
+        sv.add(chosen)
+        sv.add(term)
+        t0 = time.time()
+        r = sv.check()
+        self.queries += 1
+        self.solver_s += time.time() - t0
+        return r
+
+    def check_all(self, timeout_ms, want_model=False):
+        """Satisfiability of the whole path condition, component by component (fresh solvers)."""
+        comps = _components(self._flat)
+        models = []
+        worst = z3.sat
+        for comp in comps:
+            sv = z3.Solver()
+            sv.set("timeout", timeout_ms)
+            sv.add(comp)
+            t0 = time.time()
+            r = sv.check()
+            self.queries += 1
+            self.solver_s += time.time() - t0
+            if r == z3.unsat:
+                return z3.unsat, None
+            if r == z3.unknown:
+                worst = z3.unknown
+            elif want_model:
+                models.append((sv.model(), set().union(*[_vars(a) for a in comp]) if comp else set()))
+        if worst != z3.sat or not want_model:
+            return worst, None
+        out = {}
+        for name, v in self.inputs.items():
+            vv = _vars(v)
+            m = next((m for m, vs in models if vv & vs), None)
+            if m is None:
+                m = models[0][0] if models else None
+            out[name] = _val_to_py(m.eval(v, model_completion=True)) if m is not None else 0
+        return z3.sat, out
 
     # -- inputs --------------------------------------------------------------
     def fresh(self, base: str) -> str:
@@ -574,8 +663,11 @@ class SymCtx:
                 raise PathAbort()
             return
         t = cond.t
-        self.add(t)
-        if self._check() == z3.unsat:
+        self.add(t)  # (sets self.nonlinear when t is)
+        if self.nonlinear and self.opts.lazy_nonlinear:
+            if self._check_sliced(t, self.opts.branch_timeout_ms) == z3.unsat:
+                raise PathAbort()
+        elif self._check() == z3.unsat:
             raise PathAbort()
 
     # -- control flow ----------------------------------------------------------
@@ -598,12 +690,20 @@ class SymCtx:
             self.trace.append(Decision("b", None, d.choice, False))
             self.add(term if d.choice else z3.Not(term))
             return d.choice
-        rt = self._check(term)
+        if not self.nonlinear and _is_nonlinear(term):
+            self.nonlinear = True
+        if self.nonlinear and self.opts.lazy_nonlinear:
+            rt = self._check_sliced(term, self.opts.branch_timeout_ms)
+        else:
+            rt = self._check(term)
         if rt == z3.unsat:
             self._record("b", None, False, False)
             self.add(z3.Not(term))
             return False
-        rf = self._check(z3.Not(term))
+        if self.nonlinear and self.opts.lazy_nonlinear:
+            rf = self._check_sliced(z3.Not(term), self.opts.branch_timeout_ms)
+        else:
+            rf = self._check(z3.Not(term))
         if rf == z3.unsat:
             self._record("b", None, True, False)
             self.add(term)
@@ -631,13 +731,29 @@ class SymCtx:
                     return v
                 self.add(t != v)
                 continue
-            r = self._check()
+            if self.nonlinear and self.opts.lazy_nonlinear:
+                # decide on the slice of the path condition that the integer depends on
+                chosen, _ = self._cone([t])
+                sv = z3.Solver()
+                sv.set("timeout", self.opts.branch_timeout_ms)
+                sv.add(chosen)
+                t0 = time.time()
+                r = sv.check()
+                self.queries += 1
+                self.solver_s += time.time() - t0
+                mdl = sv.model() if r == z3.sat else None
+            else:
+                r = self._check()
+                mdl = self.solver.model() if r == z3.sat else None
             if r != z3.sat:
                 if r == z3.unsat:
                     raise PathAbort()
                 raise Inconclusive("solver returned unknown while concretising an integer")
-            v = self.solver.model().eval(t, model_completion=True).as_long()
-            other = self._check(t != v)
+            v = mdl.eval(t, model_completion=True).as_long()
+            if self.nonlinear and self.opts.lazy_nonlinear:
+                other = self._check_sliced(t != v, self.opts.branch_timeout_ms)
+            else:
+                other = self._check(t != v)
             forked = other != z3.unsat
             self._record("c", v, True, forked)
             self.add(t == v)
@@ -659,7 +775,7 @@ class SymCtx:
                 return SymReal(var, True)
         # hash-consing modulo proved equality of the argument (DESIGN 3.2)
         for arg, var in self._sqrts:
-            if self._check(arg != e, timeout_ms=1000) == z3.unsat:
+            if self._check_sliced(arg != e, 1000) == z3.unsat:
                 self._sqrts.append((e, var))
                 return SymReal(var, True)
         if not x.nn and self.branch(e < 0):
@@ -713,7 +829,9 @@ class SymCtx:
                 self.obligations.append(Obligation(name, "discharged", "concrete"))
                 return True
             m = None
-            if self._check(timeout_ms=self.opts.oblig_timeout_ms) == z3.sat:
+            if self.nonlinear:
+                m = self.check_all(self.opts.oblig_timeout_ms, want_model=True)[1]
+            elif self._check(timeout_ms=self.opts.oblig_timeout_ms) == z3.sat:
                 m = self.model_dict(self.solver.model())
             self.obligations.append(Obligation(name, "violated", detail or "concretely false on this path", m))
             return False
@@ -736,7 +854,7 @@ class SymCtx:
         """Is pc & not(goal) satisfiable?  -> (result, model dict or None, reason)."""
         if z3.is_true(goal):
             return z3.unsat, None, ""
-        if not getattr(self, "_skip_incremental", False):
+        if not getattr(self, "_skip_incremental", False) and not self.nonlinear:
             self.solver.push()
             self.solver.add(z3.Not(goal))
             r = self._check(timeout_ms=min(1500, self.opts.oblig_timeout_ms))
@@ -747,23 +865,7 @@ class SymCtx:
             self._skip_incremental = True
         # fresh non-incremental solver on the cone of influence of the goal (assertions that share
         # variables with it, transitively): pure-real slices let z3 use its nlsat strategy
-        asserts = [z3.simplify(a) for a in self.solver.assertions()]
-        asserts = [x for a in asserts for x in _conjuncts(a)]
-        vs = set(_vars(goal))
-        chosen, rest = [], list(asserts)
-        changed = True
-        while changed:
-            changed = False
-            keep = []
-            for a in rest:
-                av = _vars(a)
-                if av & vs:
-                    chosen.append(a)
-                    vs |= av
-                    changed = True
-                else:
-                    keep.append(a)
-            rest = keep
+        chosen, vs = self._cone([goal])
         solver = z3.Solver()
         solver.set("timeout", self.opts.oblig_timeout_ms)
         solver.add(chosen)
@@ -781,8 +883,9 @@ class SymCtx:
                     out[name] = _val_to_py(m.eval(v, model_completion=True))
                 else:
                     if base is None:
-                        base = self.solver.model() if self._check() == z3.sat else m
-                    out[name] = _val_to_py(base.eval(v, model_completion=True))
+                        rb, base = self.check_all(self.opts.oblig_timeout_ms, want_model=True)
+                        base = base or {}
+                    out[name] = base.get(name, 0)
             return r, out, ""
         return r, None, (solver.reason_unknown() if r == z3.unknown else "")
 
@@ -795,7 +898,9 @@ class SymCtx:
     def reachable(self, name: str, cond=True):
         """Reachability twin: records that `cond` is satisfiable on this path."""
         if isinstance(cond, (bool, _np.bool_)):
-            ok = bool(cond) and self._check() != z3.unsat
+            ok = bool(cond)
+        elif self.nonlinear:
+            ok = self._check_sliced(cond.t, self.opts.branch_timeout_ms) == z3.sat
         else:
             ok = self._check(cond.t) == z3.sat
         if ok:
@@ -846,6 +951,40 @@ def _vars(t) -> frozenset:
         _VARS_CACHE.clear()
     _VARS_CACHE[key] = (t, fs)
     return fs
+
+
+def _is_nonlinear(t) -> bool:
+    stack, seen = [t], set()
+    while stack:
+        e = stack.pop()
+        i = e.get_id()
+        if i in seen:
+            continue
+        seen.add(i)
+        if z3.is_app(e):
+            k = e.decl().kind()
+            ch = e.children()
+            if k == z3.Z3_OP_MUL and sum(1 for x in ch if not (z3.is_rational_value(x) or z3.is_int_value(x))) >= 2:
+                return True
+            if k in (z3.Z3_OP_DIV, z3.Z3_OP_IDIV, z3.Z3_OP_MOD) and len(ch) == 2 and not (z3.is_rational_value(ch[1]) or z3.is_int_value(ch[1])):
+                return True
+            if k == z3.Z3_OP_POWER:
+                return True
+            stack.extend(ch)
+    return False
+
+
+def _components(asserts):
+    """Partition assertions into groups with pairwise disjoint variable sets."""
+    groups = []  # (varset, [asserts])
+    for a in asserts:
+        av = set(_vars(a))
+        hit = [g for g in groups if g[0] & av]
+        for g in hit:
+            groups.remove(g)
+            av |= g[0]
+        groups.append((av, [x for g in hit for x in g[1]] + [a]))
+    return [g[1] for g in groups]
 
 
 def _conjuncts(t):
@@ -917,19 +1056,18 @@ def run_path(fn: Callable, params: dict, prefix: list, opts: Options, want_witne
         _CTX = None
     witness = None
     if status == "ok":
-        r = c._check(timeout_ms=min(3000, opts.oblig_timeout_ms))
-        fresh = None
-        if r == z3.unknown:
-            fresh = z3.Solver()
-            fresh.set("timeout", opts.oblig_timeout_ms)
-            fresh.add(c.solver.assertions())
-            r = fresh.check()
-        if r == z3.sat and want_witness:
-            witness = c.model_dict((fresh or c.solver).model())
+        if c.nonlinear:
+            r, witness = c.check_all(opts.oblig_timeout_ms, want_model=want_witness)
+        else:
+            r = c._check(timeout_ms=opts.oblig_timeout_ms)
+            if r == z3.sat and want_witness:
+                witness = c.model_dict(c.solver.model())
         if r == z3.unsat:
             status = "abort"  # lazily discovered infeasible path
+        elif r == z3.unknown:
+            status, msg = "inconclusive", "feasibility of the path condition unknown"
     elif status == "outside":
-        r = c._check(timeout_ms=opts.branch_timeout_ms)
+        r = c.check_all(opts.branch_timeout_ms)[0] if c.nonlinear else c._check(timeout_ms=opts.branch_timeout_ms)
         if r == z3.unsat:
             status = "abort"
     outs = {k: _render(v, c) for k, v in c.outputs.items()} if status == "ok" else None
